@@ -135,3 +135,35 @@ def record_file_digests(root, d):
                 full = getter(root, p)
                 out[part][p] = sha(read_follow(full)) if os.path.exists(full) else None
     return out
+
+
+def scribble(k):
+    """ wipes a dataset object in place, as a caller that owns it may: whatever a merge returned must not share mutable
+    state with the inputs it was given (run after the result has been described) """
+    import numpy as np
+    for attr in ('sensors', 'rigs', 'trajectories', 'records_camera', 'records_depth', 'records_lidar', 'records_wifi',
+                 'records_bluetooth', 'records_gnss', 'records_accelerometer', 'records_gyroscope', 'records_magnetic',
+                 'observations'):
+        o = getattr(k, attr, None)
+        if isinstance(o, dict):
+            for key in list(o):
+                inner = dict.__getitem__(o, key)
+                if isinstance(inner, dict):
+                    for k2 in list(inner):
+                        i2 = inner[k2]
+                        if isinstance(i2, (dict, list, set)):
+                            i2.clear()
+                    inner.clear()
+            dict.clear(o)
+    for attr in ('keypoints', 'descriptors', 'global_features', 'matches'):
+        o = getattr(k, attr, None)
+        if isinstance(o, dict):
+            for t in list(o):
+                try:
+                    o[t].clear()
+                except Exception:
+                    pass
+            o.clear()
+    p = getattr(k, 'points3d', None)
+    if p is not None and isinstance(p, np.ndarray) and p.flags.writeable and p.size:
+        p.fill(0)
